@@ -309,7 +309,7 @@ pub fn run(ctx: &mut Ctx) {
     let mut case = 0u64;
     let max = ctx.n(2 << 20, 24 << 20) as usize;
     // ---- payload classes x codecs: one-shot + a set of streaming schedules
-    for i in 0..ctx.n(180, 2400) {
+    for i in 0..ctx.n(180, 9000) {
         if ctx.mine(case) {
             ctx.begin(case);
             let mut rng = ctx.rng("c14", i);
